@@ -45,6 +45,9 @@ SPEC = {
         "consistent orientation (holes reversed)",
         "geometric clauses are validated on the f64 instantiation with tolerance 1e-9 (positions) / 1e-9 relative (areas); "
         "signs of face areas and all topology are exact; rounding itself is not modelled",
+        "C16_crossings_* are stated over exact rationals for segments in eps-general position (GenPos: ends inside the grid "
+        "quadrant and on no grid line, every crossing at a parameter in (eps, 1-eps) and at least eps cells from every grid "
+        "corner; eps > 0 arbitrary, 2^-52 in the kernel); f64 rounding is not modelled",
         "fewer than 2^32 darts",
     ],
     "rule": "quick: ~130 geometries (convex, star-shaped non-convex, polygon with hole, hole with island, two polygons; both "
@@ -53,7 +56,9 @@ SPEC = {
             "+ mis-oriented variants (one reversed segment, extra segment from a used vertex) x 3 clips; + nested loops turning the "
             "same way x {left, right} (must be rejected by the clip step); segment / point-of-interest cells listed in scrambled "
             "order; + exhaustive "
-            "`orient` lists (all lists of <= 3 pairs over 3 vertices, random longer ones). thorough: x8. "
+            "`orient` lists (all lists of <= 3 pairs over 3 vertices, random longer ones); + step-1 tie (`gcross`): 60 zonogons "
+            "(exact family, equality of rationals) and 60 general polygons (1e-9), every segment, all code paths (same cell, "
+            "neighbour, row+-, column+-, four diagonal directions; counts in the evidence). thorough: x8. "
             "distinct_nontrivial = distinct implementation transcripts.",
     "not_proved": [
         "end-to-end geometric clauses (result well-formed and fully embedded, no negatively oriented face, every crossing "
@@ -67,8 +72,20 @@ SPEC = {
         "exact family), the corner case IntersecCorner (outside general position), "
         "group_intersections_per_edge / compute_intersection_ids, generate_edge_data, insert_edges_in_map: not modelled "
         "(HashMap-ordered dart numbering, f64 epsilon bands); covered only by the end-to-end oracle",
-        "clip_left / clip_right closure: not reachable through the public API on hand-made maps (Boundary is pub(crate)); "
-        "validated end-to-end by the `side` and `area` clauses of the oracle",
+        "clip step (clip_left / clip_right: mark_faces BFS closure over the per-dart Boundary tags, InconsistentOrientation iff "
+        "the closure meets the other tag, delete_darts): NOT modelled. Reason: the step works on the Boundary attribute, which is "
+        "pub(crate) and removed before grisubal returns, and clip_left/clip_right are only re-exported pub(crate): neither the "
+        "tags nor the functions are reachable through the public API, so a model could not be tied on hand-made maps and the "
+        "tags of the real pipeline cannot be observed. What is checked instead, end to end on the real implementation: the "
+        "`side`, `area`, `region-area`, `segment-uncovered` clauses (exactly one side kept) and the rejection of loops nested "
+        "the wrong way round under clipping (stream `inconsistently nested loops`). Hook that would make it provable+tied "
+        "(not added; to be committed by the owner of /repo): in honeycomb-kernels/src/grisubal/mod.rs, "
+        "`#[cfg(honeycomb_verif)] pub mod verif { pub use super::model::{Boundary, Geometry2}; pub fn clip_left<T: CoordsFloat>"
+        "(m: &mut CMap2<T>) -> Result<(), GrisubalError> { super::routines::clip_left(m) } (same for clip_right); pub fn "
+        "intersection_data<T: CoordsFloat>(cmap: &CMap2<T>, g: &Geometry2<T>, n: [usize; 2], c: [T; 2], o: Vertex2<T>) -> "
+        "Vec<(DartIdType, T)> { super::routines::generate_intersection_data(cmap, g, n, c, o).1 } }` — the first two give a "
+        "`clip` protocol command on hand-made maps carrying Boundary tags, the third makes the (dart, t) pairs of step 1 "
+        "directly comparable with `crossingsOf` (today only their effect, the inserted vertex, is compared)",
     ],
 }
 
@@ -547,20 +564,31 @@ def cross_tie(geos, exact):
         iout = hv.split_outputs(fi.result()[1])
         mout = [x for x in fm.result()[1] if x]
     stats = {"cases": len(geos), "lines": 0, "disagreements": 0, "oracle_failures": 0, "impl_outcomes": {}, "ops": {"gcross": len(mlines)},
-             "distinct_nontrivial": len(set(mout)), "segments": len(mlines), "crossings": 0, "exact": exact, "branches": {}}
+             "distinct_nontrivial": len(set(mout)), "segments": len(mlines), "crossings": 0, "exact": exact, "branches": {}, "genpos_crossings": 0, "outside_genpos": 0}
     violations = []
     at = 0
     for k, g in enumerate(geos):
         li = iout[k][1] if k < len(iout) else ["<missing>"]
         nseg = len(g.segs)
         bad = None
+        ox0, oy0, _, _ = g.grid()
+        ox, oy = ox0, oy0
         if li[0] != "ok" or len(li) != 1 + 2 * nseg:
             bad = f"implementation answered {li[:2]}"
         else:
             mine = {}
+            eps = Fr(1, 2 ** 52)
             for kk, t, pt in g.crossings():
                 mine.setdefault(kk, []).append((t, pt))
-            ox, oy, _, _ = g.grid()
+                # the hypothesis GenPos of the theorems, evaluated on the case
+                fu, fv = (pt[0] - ox0) / g.cell[0], (pt[1] - oy0) / g.cell[1]
+                on_v = fu.denominator == 1
+                other = fv if on_v else fu
+                frac = other - math.floor(other)
+                if eps < t < 1 - eps and eps <= frac <= 1 - eps and not (fu.denominator == 1 and fv.denominator == 1):
+                    stats["genpos_crossings"] += 1
+                else:
+                    stats["outside_genpos"] += 1
             for j in range(nseg):
                 im, mo = li[1 + j], (mout[at + j] if at + j < len(mout) else "<missing>")
                 stats["lines"] += 1
@@ -594,7 +622,10 @@ def cross_tie(geos, exact):
             violations.append({"kind": "correspondence", "what": f"step 1 of grisubal, case cross-{g.kind}-{k}: {bad}", "found_input": False,
                                "sig": "gcross", "replay": {"case": f"cross-{k}", "input_lines": icases[k].lines[:6],
                                                            "theorem_or_correspondence": "crossingsOf (Model/Grisubal.lean) vs vertices on the segment in grisubal's map"}})
-    return {"stats": stats, "violations": violations[:5], "samples": [{"case": icases[0].cid, "input": [x[:200] for x in icases[0].lines[:3]], "model_output": mout[:2]}] if icases else []}
+    notes = [f"gcross tie ({'exact' if exact else '1e-9'}): {stats['segments']} segments, {stats['crossings']} crossings, "
+             f"{stats['genpos_crossings']} of them inside the GenPos hypothesis of C16_crossings_* ({stats['outside_genpos']} outside); "
+             f"code paths {dict(sorted(stats['branches'].items()))}"]
+    return {"stats": stats, "violations": violations[:5], "notes": notes, "samples": [{"case": icases[0].cid, "input": [x[:200] for x in icases[0].lines[:3]], "model_output": mout[:2]}] if icases else []}
 
 
 # ---------------------------------------------------------------------------------------------
